@@ -388,6 +388,11 @@ class Ctx:
         if not cov["samples"]:
             cov["samples"] = ["(no sample recorded)"]
         cov.setdefault("rule", "")
+        if cov.get("states", 0) < 1 or cov.get("transitions", 0) < 1:
+            # constant-level TLC evaluation only (ASSUME / case export): TLC reports no state graph,
+            # the generic counts (evaluations, distinct_nontrivial) carry the coverage instead
+            cov["tlc_states_reported"] = cov.pop("states", 0)
+            cov["tlc_transitions_reported"] = cov.pop("transitions", 0)
         if self.notes:
             cov["notes"] = self.notes
         if self.problems:
